@@ -62,7 +62,7 @@ def mag_st(exact_only: bool = False) -> st.SearchStrategy[Any]:
         st.sampled_from([0, 1, -1, 2, 10, 1000, 10**6, 10**9])).map(lambda n: ["int", n])
     rats = st.builds(lambda p, q: ["rat", f"{p}/{q}"],
         st.integers(-5000, 5000).filter(lambda x: x != 0), st.integers(2, 997))
-    decimal = st.builds(lambda m, e, s: _float_repr(s * m * 10.0**e), st.integers(1, 99999), st.integers(-14, 9),
+    decimal = st.builds(lambda m, e, s: _float_repr(s * m * 10.0**e), st.integers(1, 99999), st.one_of(st.integers(-14, 9), st.integers(-40, 30)),
         st.sampled_from([1, 1, 1, -1]))
     anyfloat = st.floats(min_value=1e-12, max_value=1e12, allow_nan=False, allow_infinity=False).flatmap(
         lambda f: st.sampled_from([_float_repr(f), _float_repr(-f)]))
